@@ -77,10 +77,10 @@ Lemma drop_slice_tick c v ys : forall p u k,
   store_ok c v -> N.of_nat (p + length ys) <= vcap v -> Held c v p ys ->
   Forall (tok_ok (szn c)) ys -> ufuse u = Some k -> N.of_nat (length ys) <= k ->
   exists u', drop_slice c (p * szn c) (length ys) (v, u) = Ok tt (v, u') /\
-    ulog u' = rev (map EDrop ys) ++ ulog u /\ unext u' = unext u.
+    ulog u' = rev (map EDrop ys) ++ ulog u /\ unext u' = unext u /\ ufuse u' = Some (k - N.of_nat (length ys)).
 Proof.
   induction ys as [|y ys IH]; intros p u k Hst Hle Hh Hall Hf Hk.
-  - exists u. cbn [length drop_slice map rev app]. unfold ret. auto.
+  - exists u. cbn [length drop_slice map rev app]. unfold ret. rewrite Hf. repeat split; auto. f_equal. cbn. lia.
   - cbn [length] in Hle, Hk. cbn [length drop_slice].
     apply (held_split c v p [y] ys) in Hh. destruct Hh as [H1 H2].
     inversion Hall; subst.
@@ -88,10 +88,11 @@ Proof.
     rewrite (user_call_tick v (emit (EDrop y) u) k) by (auto; lia).
     replace (p * szn c + szn c)%nat with ((p + 1) * szn c)%nat by lia.
     destruct (IH (p + 1)%nat (set_fuse (Some (k - 1)) (emit (EDrop y) u)) (k - 1))
-      as [u' [E [L Nx]]]; auto; try lia.
-    exists u'. split; [exact E|]. split.
+      as [u' [E [L [Nx F]]]]; auto; try lia.
+    exists u'. split; [exact E|]. split; [|split].
     + rewrite L. cbn [map rev ulog set_fuse emit]. rewrite <- app_assoc. reflexivity.
     + rewrite Nx. reflexivity.
+    + rewrite F. f_equal. lia.
 Qed.
 
 (** [drop_elements_range] with an armed fuse: [n] = number of elements in the range *)
@@ -104,7 +105,8 @@ Lemma drop_range_fused c known v u ys i j k :
     unext u' = unext u /\
     ulog u' = rev (if c_dg c then (if k <? N.of_nat (j - i)
                                    then map EDrop (if known then ys else firstn (S (N.to_nat k)) ys)
-                                   else map EDrop ys) else []) ++ ulog u.
+                                   else map EDrop ys) else []) ++ ulog u /\
+    (c_dg c && (k <? N.of_nat (j - i)) = false -> ufuse u' = Some (k - (if c_dg c then N.of_nat (j - i) else 0))).
 Proof.
   intros Hst Hij Hj Hlen Hh Hall Hf. unfold drop_range, bind, assert_.
   rewrite (proj2 (N.leb_le (N.of_nat i) (N.of_nat j))) by lia.
@@ -115,14 +117,14 @@ Proof.
     + destruct known.
       * destruct (drop_slice_fire c v ys i u (N.to_nat k)) as [u' [E [L [Nx F]]]]; auto; try lia.
         { rewrite N2Nat.id. exact Hf. }
-        exists u'. auto.
+        exists u'. repeat split; auto. discriminate.
       * destruct (drop_loop_fire c v ys i u (N.to_nat k)) as [u' [E [L [Nx F]]]]; auto; try lia.
         { rewrite N2Nat.id. exact Hf. }
-        exists u'. auto.
+        exists u'. repeat split; auto. discriminate.
     + destruct known.
-      * destruct (drop_slice_tick c v ys i u k) as [u' [E [L Nx]]]; auto; try lia. exists u'. auto.
-      * destruct (drop_loop_tick c v ys i u k) as [u' [E [L [Nx F]]]]; auto; try lia. exists u'. auto.
-  - exists u. unfold ret. cbn [rev app]. auto.
+      * destruct (drop_slice_tick c v ys i u k) as [u' [E [L [Nx F]]]]; auto; try lia. exists u'. repeat split; auto.
+      * destruct (drop_loop_tick c v ys i u k) as [u' [E [L [Nx F]]]]; auto; try lia. exists u'. repeat split; auto.
+  - exists u. unfold ret. cbn [rev app]. repeat split; auto. intros _. rewrite Hf. f_equal. lia.
 Qed.
 
 (** the rest of [Drain::drop] once the un-yielded elements are destroyed *)
@@ -155,6 +157,320 @@ Proof.
     + apply held_app; [exact Hp'|]. rewrite Hlp. exact Ht'.
     + apply Forall_app. split; [apply Forall_firstn' | apply Forall_skipn']; exact Htok.
   - cbn [vcap vbk with_len with_mem]. auto.
+Qed.
+
+(** ** splice: the replacement iterator's next() panics *)
+
+Lemma firstn_pos_cons {A} (t : A) ts f : 0 < f -> firstn (N.to_nat f) (t :: ts) = t :: firstn (N.to_nat (f - 1)) ts.
+Proof. intros Hf. replace (N.to_nat f) with (S (N.to_nat (f - 1))) by lia. reflexivity. Qed.
+Lemma skipn_pos_cons {A} (t : A) ts f : 0 < f -> skipn (N.to_nat f) (t :: ts) = skipn (N.to_nat (f - 1)) ts.
+Proof. intros Hf. replace (N.to_nat f) with (S (N.to_nat (f - 1))) by lia. reflexivity. Qed.
+
+(** step 3 of Splice::drop with an armed fuse: the [f]-th call of next() panics (or the fuse outlives the loop) *)
+Lemma splice_fill_fused c kf ts : forall p w v u f,
+  store_ok c v -> N.of_nat (p + length ts) <= vcap v -> ufuse u = Some f ->
+  exists u',
+    splice_fill c (p * szn c) (length ts) w (map (fun t => honest_item c t kf) ts) (v, u)
+    = (if f <? N.of_nat (length ts)
+       then Panic PUser (with_mem (mwrite (p * szn c) (flat (szn c) (firstn (N.to_nat f) ts)) (vmem v)) v, u')
+       else Ok (w + N.of_nat (length ts), []) (with_mem (mwrite (p * szn c) (flat (szn c) ts) (vmem v)) v, u')) /\
+    unext u' = unext u /\
+    ulog u' = (if f <? N.of_nat (length ts)
+               then (if c_dg c then rev (map EDrop (skipn (N.to_nat f) ts)) else []) ++ repeat ENext (S (N.to_nat f))
+               else repeat ENext (length ts)) ++ ulog u /\
+    ufuse u' = (if f <? N.of_nat (length ts) then None else Some (f - N.of_nat (length ts))).
+Proof.
+  induction ts as [|t ts IH]; intros p w v u f Hst Hle Hf.
+  - exists u. cbn [length map splice_fill flat repeat app N.of_nat]. rewrite mwrite_nil, with_mem_id.
+    destruct (N.ltb_spec f 0) as [|_]; [lia|]. unfold ret. rewrite !N.add_0_r, N.sub_0_r. auto.
+  - cbn [length] in Hle. cbn [length map splice_fill].
+    rewrite (bind_ok _ _ (v, u) tt (v, emit ENext u)) by reflexivity.
+    destruct (N.eqb_spec f 0) as [->|Hnz].
+    + (* this call of next() panics: everything not yet pulled is destroyed *)
+      destruct (N.ltb_spec 0 (N.of_nat (S (length ts)))) as [_|]; [|lia].
+      assert (Efire : user_call (v, emit ENext u) = Panic PUser (v, disarm (emit ENext u)))
+        by (apply user_call_fire; exact Hf).
+      destruct (drop_items_ok c kf v (t :: ts) (disarm (disarm (emit ENext u))) eq_refl) as [u1 [E1 [L1 [N1 F1]]]].
+      exists {| ulog := ulog u1; unext := unext u1; ufuse := None |}.
+      split; [|split; [|split]].
+      * apply bind_panic. unfold unwinding_st, on_unwind. rewrite Efire.
+        unfold quiet_st. cbn [fst snd map] in *. rewrite E1.
+        cbn [N.to_nat firstn flat]. rewrite mwrite_nil, with_mem_id. reflexivity.
+      * cbn [unext]. rewrite N1. reflexivity.
+      * cbn [ulog N.to_nat skipn repeat]. rewrite L1. cbn [disarm emit ulog]. rewrite <- app_assoc. reflexivity.
+      * reflexivity.
+    + assert (Hpos : 0 < f) by lia.
+      rewrite (bind_ok _ _ _ tt (v, set_fuse (Some (f - 1)) (emit ENext u)))
+        by (apply unwinding_ok, user_call_tick; [exact Hf|exact Hpos]).
+      rewrite (bind_ok _ _ _ tt
+                 (with_mem (mwrite (p * szn c) (enc (szn c) t) (vmem v)) v, set_fuse (Some (f - 1)) (emit ENext u))).
+      2:{ apply unwinding_ok. cbn [r_ty r_src honest_item]. rewrite N.eqb_refl.
+          rewrite (bind_ok _ _ _ tt (v, set_fuse (Some (f - 1)) (emit ENext u))) by reflexivity.
+          apply write_value_ok; [exact Hst | lia]. }
+      assert (Hb : (p * szn c + szn c <= length (vmem v))%nat).
+      { unfold store_ok in Hst. rewrite cap_bytes in Hst. nia. }
+      replace (p * szn c + szn c)%nat with ((p + 1) * szn c)%nat by lia.
+      destruct (IH (p + 1)%nat (w + 1)
+                  (with_mem (mwrite (p * szn c) (enc (szn c) t) (vmem v)) v) (set_fuse (Some (f - 1)) (emit ENext u)) (f - 1))
+        as [u' [E [Nx [L F]]]].
+      * unfold store_ok. cbn [vcap vmem with_mem]. rewrite mwrite_length; [exact Hst|].
+        rewrite enc_length. exact Hb.
+      * cbn [vcap with_mem]. lia.
+      * reflexivity.
+      * exists u'.
+        assert (Hcmp : (f - 1 <? N.of_nat (length ts)) = (f <? N.of_nat (S (length ts)))).
+        { destruct (N.ltb_spec (f - 1) (N.of_nat (length ts))); destruct (N.ltb_spec f (N.of_nat (S (length ts)))); try reflexivity; lia. }
+        rewrite Hcmp in *.
+        assert (Hmw : forall ys, with_mem (mwrite ((p + 1) * szn c) (flat (szn c) ys) (vmem (with_mem (mwrite (p * szn c) (enc (szn c) t) (vmem v)) v)))
+                                   (with_mem (mwrite (p * szn c) (enc (szn c) t) (vmem v)) v)
+                                 = with_mem (mwrite (p * szn c) (flat (szn c) (t :: ys)) (vmem v)) v).
+        { intros ys. cbn [vmem with_mem flat].
+          replace ((p + 1) * szn c)%nat with (p * szn c + length (enc (szn c) t))%nat by (rewrite enc_length; lia).
+          rewrite mwrite_mwrite_app by lia. reflexivity. }
+        split; [|split; [|split]].
+        -- rewrite E. destruct (f <? N.of_nat (S (length ts))).
+           ++ rewrite Hmw. rewrite (firstn_pos_cons t ts f Hpos). reflexivity.
+           ++ rewrite Hmw. replace (w + 1 + N.of_nat (length ts)) with (w + N.of_nat (S (length ts))) by lia. reflexivity.
+        -- rewrite Nx. reflexivity.
+        -- rewrite L. cbn [set_fuse emit ulog].
+           destruct (f <? N.of_nat (S (length ts))).
+           ++ rewrite (skipn_pos_cons t ts f Hpos).
+              replace (S (N.to_nat f)) with (S (S (N.to_nat (f - 1)))) by lia.
+              rewrite <- !app_assoc. f_equal.
+              change (repeat ENext (S (S (N.to_nat (f - 1))))) with (ENext :: repeat ENext (S (N.to_nat (f - 1)))).
+              rewrite (repeat_cons (S (N.to_nat (f - 1))) ENext). rewrite <- app_assoc. reflexivity.
+           ++ cbn [repeat]. rewrite (repeat_cons (length ts) ENext). rewrite <- app_assoc. reflexivity.
+        -- rewrite F. destruct (f <? N.of_nat (S (length ts))); [reflexivity|]. f_equal. lia.
+Qed.
+
+(** steps 0-2 of Splice::drop with an armed fuse: a destructor of the un-yielded range may panic *)
+Lemma splice_prep_fused c v u xs s e i j known n k :
+  cfg_wf c -> RangeAlive c v xs s e i j -> ufuse u = Some k ->
+  let new_len := (s + n + (length xs - e))%nat in
+  (N.of_nat new_len <= vcap v \/ grow_ok c v (N.of_nat new_len)) ->
+  let d := {| dcur := {| ci := N.of_nat i; ce := N.of_nat j |};
+              dstart := N.of_nat s; dend := N.of_nat e; dorig := N.of_nat (length xs) |} in
+  let range := firstn (j - i) (skipn i xs) in
+  let fires := c_dg c && (k <? N.of_nat (j - i)) in
+  exists v2 u2,
+    splice_prep c known d (N.of_nat n) (v, u)
+      = (if fires then Panic PUser (v2, u2) else Ok (N.of_nat s + N.of_nat n) (v2, u2)) /\
+    Rep c v2 (firstn s xs) /\ vbk v2 = vbk v /\ unext u2 = unext u /\
+    (N.of_nat new_len <= vcap v -> vcap v2 = vcap v) /\
+    uevents u2 = rev (if c_dg c then (if k <? N.of_nat (j - i)
+                                      then map EDrop (if known then range else firstn (S (N.to_nat k)) range)
+                                      else map EDrop range) else []) ++ uevents u /\
+    (fires = false ->
+       N.of_nat new_len <= vcap v2 /\ vcap v2 <= usize_max /\ store_ok c v2 /\
+       Held c v2 0 (firstn s xs) /\ Held c v2 (s + n) (skipn e xs) /\
+       ufuse u2 = Some (k - (if c_dg c then N.of_nat (j - i) else 0))).
+Proof.
+  intros Hwf HA Hf new_len Hroom d range fires.
+  pose proof (drain_forget_rep _ _ _ _ _ _ _ HA) as HR.
+  destruct HA as [Hle Hlen Hcap Hus Hst Hp Hm Ht Htok].
+  destruct Hle as [Hsi [Hij [Hje Hel]]].
+  assert (Hmax : N.of_nat new_len <= usize_max).
+  { destruct Hroom as [Hr | Hg]; [lia|]. unfold grow_ok in Hg. destruct (vbk v); tauto. }
+  set (add := N.of_nat s + N.of_nat n + (N.of_nat (length xs) - N.of_nat e) - N.of_nat s).
+  assert (Hadd : vlen v + add = N.of_nat new_len) by (unfold add, new_len; lia).
+  destruct (reserve_ok c v u (firstn s xs) add Hwf HR) as
+      [v1 [u1 [E0 [HR1 [Hc1 [Hcc1 [Hl1 [Hb1 [[Hn1 [Hf1 He1]] Hm1]]]]]]]]].
+  { rewrite Hadd. exact Hroom. }
+  rewrite Hadd in Hc1.
+  pose proof (rep_store _ _ _ HR1) as Hst1.
+  pose proof (rep_usize _ _ _ HR1) as Hus1.
+  pose proof (rep_held _ _ _ HR1) as Hp1.
+  assert (Hkeep : forall off ys, Held c v off ys -> N.of_nat (off + length ys) <= vcap v ->
+                                 Held c v1 off ys).
+  { intros off ys Hh Hb. refine (heldm_firstn_eq _ _ _ _ _ _ Hh Hm1 _).
+    rewrite cap_bytes. nia. }
+  assert (Hlm : length range = (j - i)%nat).
+  { unfold range. rewrite firstn_length_le; [lia | rewrite skipn_length; lia]. }
+  assert (Hlt : length (skipn e xs) = (length xs - e)%nat) by apply skipn_length.
+  assert (Hlp : length (firstn s xs) = s) by (apply firstn_length_le; lia).
+  assert (Hm' : Held c v1 i range) by (apply Hkeep; [exact Hm | lia]).
+  assert (Ht' : Held c v1 e (skipn e xs)) by (apply Hkeep; [exact Ht | lia]).
+  assert (Htokm : Forall (tok_ok (szn c)) range)
+    by (apply Forall_firstn', Forall_skipn'; exact Htok).
+  assert (Hfu1 : ufuse u1 = Some k) by congruence.
+  destruct (drop_range_fused c known v1 u1 range i j k Hst1 Hij ltac:(lia) Hlm Hm' Htokm Hfu1)
+    as (u2 & E1 & N1 & L1 & F1).
+  assert (Hsame : N.of_nat new_len <= vcap v -> vcap v1 = vcap v).
+  { intros Hfit. destruct (reserve_room_same c v u add v1 u1) as [-> _]; [rewrite Hadd; exact Hfit|exact Hus|exact E0|reflexivity]. }
+  assert (Hprefix : splice_prep c known d (N.of_nat n) (v, u)
+                    = (do _ <- drop_range c known (N.of_nat i) (N.of_nat j);
+                       move_elements c (N.of_nat e) (N.of_nat s + N.of_nat n) (N.of_nat (length xs) - N.of_nat e);;
+                       ret (N.of_nat s + N.of_nat n)) (v1, u1)).
+  { unfold splice_prep, d. cbn [dcur ci ce dend dstart dorig].
+    unfold of_ovf, of_opt, checked_add.
+    rewrite (proj2 (N.leb_le (N.of_nat s + N.of_nat n) usize_max)) by (unfold new_len in Hmax; lia).
+    rewrite (bind_ok _ _ (v, u) _ (v, u) eq_refl).
+    rewrite (proj2 (N.leb_le (N.of_nat s + N.of_nat n + (N.of_nat (length xs) - N.of_nat e)) usize_max))
+      by (unfold new_len in Hmax; lia).
+    rewrite (bind_ok _ _ (v, u) _ (v, u) eq_refl).
+    fold add. rewrite (bind_ok _ _ _ _ _ E0). reflexivity. }
+  rewrite Hprefix.
+  assert (Hev : uevents u2 = rev (if c_dg c then (if k <? N.of_nat (j - i)
+                                      then map EDrop (if known then range else firstn (S (N.to_nat k)) range)
+                                      else map EDrop range) else []) ++ uevents u).
+  { unfold uevents at 1. rewrite L1. rewrite <- He1. unfold uevents.
+    destruct (c_dg c); [|reflexivity].
+    destruct (k <? N.of_nat (j - i)); [destruct known|]; apply (uevents_drops true). }
+  unfold fires. destruct (c_dg c && (k <? N.of_nat (j - i))) eqn:Ecase.
+  - (* a destructor of the range panics *)
+    exists v1, u2. split; [apply bind_panic; exact E1|].
+    split; [exact HR1|]. split; [exact Hb1|]. split; [congruence|]. split; [exact Hsame|].
+    split; [exact Hev|discriminate].
+  - destruct (moved_state c v1 (firstn s xs) (skipn e xs) (s + n) Hst1) as [Hst2 [Hp2 Ht2]];
+      auto; try (unfold new_len in Hc1; lia).
+    exists (with_mem (mwrite ((s + n) * szn c) (flat (szn c) (skipn e xs)) (vmem v1)) v1), u2.
+    split.
+    { rewrite (bind_ok _ _ _ _ _ E1).
+      rewrite (bind_ok _ _ _ tt _
+                 (move_elements_ok c v1 u2 (N.of_nat e) (N.of_nat s + N.of_nat n)
+                    (N.of_nat (length xs) - N.of_nat e) (skipn e xs) Hst1
+                    ltac:(lia) ltac:(unfold new_len in Hc1; lia)
+                    ltac:(unfold new_len in Hc1; lia)
+                    ltac:(rewrite Nat2N.id; exact Ht'))).
+      unfold ret. replace (N.to_nat (N.of_nat s + N.of_nat n)) with (s + n)%nat by lia. reflexivity. }
+    split.
+    { apply rep_of_held; cbn [vlen vcap vmem with_mem]; auto.
+      - rewrite Hlp. congruence.
+      - rewrite Hl1, Hlen. unfold new_len in Hc1. lia.
+      - apply Forall_firstn'. exact Htok. }
+    split; [cbn [vbk with_mem]; exact Hb1|]. split; [congruence|].
+    split; [intros Hfit; cbn [with_mem vcap]; exact (Hsame Hfit)|].
+    split; [exact Hev|]. intros _.
+    split; [cbn [vcap with_mem]; exact Hc1|]. split; [cbn [vcap with_mem]; exact Hus1|].
+    split; [exact Hst2|]. split; [exact Hp2|]. split; [exact Ht2|].
+    exact (F1 eq_refl).
+Qed.
+
+(** Splice::drop with honest replacement values and an armed fuse: a destructor of the un-yielded range panics
+    (A), the [f]-th call of next() panics (B), or the fuse outlives the drop (C) *)
+Lemma splice_drop_fused c v u xs s e i j known ts kf k :
+  cfg_wf c -> RangeAlive c v xs s e i j -> ufuse u = Some k ->
+  Forall (tok_ok (szn c)) ts ->
+  let new_len := (s + length ts + (length xs - e))%nat in
+  (N.of_nat new_len <= vcap v \/ grow_ok c v (N.of_nat new_len)) ->
+  let d := {| dcur := {| ci := N.of_nat i; ce := N.of_nat j |};
+              dstart := N.of_nat s; dend := N.of_nat e; dorig := N.of_nat (length xs) |} in
+  let range := firstn (j - i) (skipn i xs) in
+  let m := if c_dg c then N.of_nat (j - i) else 0 in
+  let caseA := c_dg c && (k <? N.of_nat (j - i)) in
+  let caseB := negb caseA && (k - m <? N.of_nat (length ts)) in
+  let f := N.to_nat (k - m) in
+  exists v' u',
+    splice_drop c known d (N.of_nat (length ts)) (map (fun t => honest_item c t kf) ts) (v, u)
+      = (if caseA || caseB then Panic PUser (v', u') else Ok tt (v', u')) /\
+    Rep c v' (if caseA || caseB then firstn s xs else VecSpec.sp_splice s e ts xs) /\
+    vbk v' = vbk v /\ unext u' = unext u /\
+    (N.of_nat new_len <= vcap v -> vcap v' = vcap v) /\
+    uevents u' = rev (if caseA then map EDrop (if known then range else firstn (S (N.to_nat k)) range) ++ (if c_dg c then map EDrop ts else [])
+                      else (if c_dg c then map EDrop range else [])
+                           ++ (if caseB then repeat ENext (S f) ++ (if c_dg c then map EDrop (skipn f ts) else [])
+                               else repeat ENext (length ts)))
+                 ++ uevents u.
+Proof.
+  intros Hwf HA Hf Htoks new_len Hroom d range m caseA caseB f.
+  destruct (splice_prep_fused c v u xs s e i j known (length ts) k Hwf HA Hf Hroom)
+    as (v2 & u2 & E2 & HR2 & Hb2 & Hn2 & Hcap2 & He2 & Hrest).
+  fold range in He2. fold caseA in E2, Hrest.
+  unfold splice_drop, d. cbn [dcur ci ce dend dstart dorig].
+  destruct caseA eqn:EA; cbn [orb negb andb] in *.
+  - (* A: a destructor of the range panics; the replacement values are destroyed *)
+    destruct (drop_items_ok c kf v2 ts (disarm u2) eq_refl) as [u3 [E3 [L3 [N3 F3]]]].
+    exists v2, {| ulog := ulog u3; unext := unext u3; ufuse := ufuse u2 |}.
+    split.
+    { apply bind_panic. unfold unwinding_st, on_unwind. unfold d in E2. cbn [dcur ci ce dend dstart dorig] in E2.
+      rewrite E2. unfold quiet_st. cbn [fst snd]. rewrite E3. reflexivity. }
+    split; [exact HR2|]. split; [exact Hb2|]. split; [cbn [unext]; rewrite N3; exact Hn2|]. split; [exact Hcap2|].
+    unfold uevents at 1. cbn [ulog]. rewrite L3, uevents_drops. cbn [disarm ulog]. fold (uevents u2). rewrite He2.
+    unfold caseA in EA. apply andb_prop in EA. destruct EA as [Hdg Hlt]. rewrite Hdg, Hlt.
+    rewrite rev_app_distr, <- app_assoc. reflexivity.
+  - (* the range is gone; now the replacement values are pulled *)
+    destruct (Hrest eq_refl) as (Hc2 & Hus2 & Hst2 & Hp2 & Ht2 & Hfu2). fold m in Hfu2. clear Hrest.
+    unfold d in E2. cbn [dcur ci ce dend dstart dorig] in E2.
+    rewrite (bind_ok _ _ _ _ _ (unwinding_ok _ _ _ _ _ E2)).
+    rewrite bo_of_nat, Nat2N.id.
+    assert (HAc := HA). destruct HAc as [Hle Hlen Hcap Hus Hst Hp Hm Ht Htok].
+    destruct Hle as [Hsi [Hij [Hje Hel]]].
+    assert (Hlt : length (skipn e xs) = (length xs - e)%nat) by apply skipn_length.
+    assert (Hlp : length (firstn s xs) = s) by (apply firstn_length_le; lia).
+    destruct (splice_fill_fused c kf ts s 0 v2 u2 (k - m) Hst2) as [u3 [E3 [N3 [L3 F3]]]];
+      [unfold new_len in Hc2; lia | exact Hfu2 |].
+    assert (Hb : ((s + length ts) * szn c + (length xs - e) * szn c <= length (vmem v2))%nat).
+    { unfold store_ok in Hst2. rewrite cap_bytes in Hst2. unfold new_len in Hc2. nia. }
+    assert (Hev23 : forall X, ulog u3 = X ++ ulog u2 -> (forall lg, filter is_user_event (X ++ lg) = X ++ filter is_user_event lg) ->
+                    uevents u3 = X ++ uevents u2).
+    { intros X HX HfX. unfold uevents. rewrite HX, HfX. reflexivity. }
+    unfold caseB. destruct (k - m <? N.of_nat (length ts)) eqn:EB.
+    + (* B: the f-th call of next() panics *)
+      set (v3 := with_mem (mwrite (s * szn c) (flat (szn c) (firstn f ts)) (vmem v2)) v2) in *.
+      exists v3, u3. split; [apply bind_panic; exact E3|].
+      assert (Hlf : (length (firstn f ts) <= length ts)%nat) by (rewrite firstn_length; lia).
+      split.
+      { pose proof (rep_len _ _ _ HR2) as Hl2.
+        apply rep_of_held; unfold v3; cbn [vlen vcap vmem with_mem]; auto.
+        - rewrite Hlp in Hl2. rewrite Hl2. unfold new_len in Hc2. lia.
+        - unfold store_ok. cbn [vcap vmem with_mem]. rewrite mwrite_length; [exact Hst2|]. rewrite flat_length. nia.
+        - change (HeldM (szn c) (mwrite (s * szn c) (flat (szn c) (firstn f ts)) (vmem v2)) 0 (firstn s xs)).
+          apply heldm_mwrite_before; [exact Hp2 | rewrite Hlp; lia | nia].
+        - apply Forall_firstn'. exact Htok. }
+      split; [unfold v3; cbn [vbk with_mem]; exact Hb2|]. split; [congruence|].
+      split; [intros Hfit; unfold v3; cbn [vcap with_mem]; exact (Hcap2 Hfit)|].
+      rewrite (Hev23 _ L3).
+      2:{ intros lg. rewrite filter_app. f_equal.
+          rewrite filter_app. f_equal.
+          - destruct (c_dg c); [|reflexivity]. rewrite <- map_rev.
+            induction (rev (skipn (N.to_nat (k - m)) ts)) as [|x l IH]; [reflexivity|]. cbn [map filter is_user_event]. f_equal. exact IH.
+          - apply filter_all_true. apply Forall_forall. intros x Hx. apply repeat_spec in Hx. subst x. reflexivity. }
+      rewrite He2. unfold caseA in EA. fold f.
+      assert (Hrange : (if c_dg c then (if k <? N.of_nat (j - i) then map EDrop (if known then range else firstn (S (N.to_nat k)) range) else map EDrop range) else [])
+                       = (if c_dg c then map EDrop range else [])).
+      { destruct (c_dg c); [|reflexivity]. cbn [andb] in EA. rewrite EA. reflexivity. }
+      rewrite Hrange. rewrite !rev_app_distr, <- !app_assoc. rewrite rev_repeat.
+      destruct (c_dg c); reflexivity.
+    + (* C: the fuse outlives the drop: Vec::splice's result *)
+      set (v3 := with_mem (mwrite (s * szn c) (flat (szn c) ts) (vmem v2)) v2) in *.
+      assert (Hb' : (s * szn c + length ts * szn c <= length (vmem v2))%nat) by nia.
+      assert (Hst3 : store_ok c v3).
+      { unfold store_ok, v3. cbn [vcap vmem with_mem].
+        rewrite mwrite_length; [exact Hst2|]. rewrite flat_length. lia. }
+      assert (Hp3 : Held c v3 0 (firstn s xs)).
+      { change (HeldM (szn c) (vmem v3) 0 (firstn s xs)). unfold v3. cbn [vmem with_mem].
+        apply heldm_mwrite_before; [exact Hp2 | rewrite Hlp; lia | lia]. }
+      assert (Hts3 : Held c v3 s ts).
+      { change (HeldM (szn c) (vmem v3) s ts). unfold v3. cbn [vmem with_mem].
+        apply heldm_mwrite_at. lia. }
+      assert (Ht3 : Held c v3 (s + length ts) (skipn e xs)).
+      { change (HeldM (szn c) (vmem v3) (s + length ts) (skipn e xs)). unfold v3.
+        cbn [vmem with_mem].
+        apply heldm_mwrite_after; [exact Ht2 | rewrite flat_length; lia | lia]. }
+      exists (with_len (N.of_nat s + (0 + N.of_nat (length ts)) + (N.of_nat (length xs) - N.of_nat e)) v3), u3.
+      split.
+      { rewrite (bind_ok _ _ _ _ _ E3).
+        rewrite (proj2 (N.ltb_ge _ _)) by lia.
+        rewrite (bind_ok _ _ _ tt (v3, u3) eq_refl).
+        reflexivity. }
+      split.
+      { unfold VecSpec.sp_splice.
+        apply rep_of_held; cbn [vlen vcap with_len with_mem v3]; auto.
+        - rewrite !app_length. lia.
+        - unfold new_len in Hc2. lia.
+        - apply held_app; [exact Hp3|]. rewrite Hlp.
+          apply held_app; [exact Hts3 | exact Ht3].
+        - apply Forall_app. split; [apply Forall_firstn'; exact Htok|].
+          apply Forall_app. split; [exact Htoks | apply Forall_skipn'; exact Htok]. }
+      split; [cbn [vbk with_len with_mem v3]; exact Hb2|]. split; [congruence|].
+      split; [intros Hfit; cbn [with_len vcap v3 with_mem]; exact (Hcap2 Hfit)|].
+      rewrite (Hev23 _ L3).
+      2:{ intros lg. apply uevents_nexts. }
+      rewrite He2. unfold caseA in EA.
+      assert (Hrange : (if c_dg c then (if k <? N.of_nat (j - i) then map EDrop (if known then range else firstn (S (N.to_nat k)) range) else map EDrop range) else [])
+                       = (if c_dg c then map EDrop range else [])).
+      { destruct (c_dg c); [|reflexivity]. cbn [andb] in EA. rewrite EA. reflexivity. }
+      rewrite Hrange. rewrite rev_app_distr, <- app_assoc. rewrite rev_repeat. reflexivity.
 Qed.
 
 (** what a fused step may do: as [step_ok], but the fuse may still be armed afterwards ([run_step] disarms it) *)
@@ -363,7 +679,7 @@ Proof.
     assert (HA' := HA). destruct HA' as [Hle' Hlen' Hcap' Hus' Hst' Hp' Hm' Ht' Htok'].
     assert (Htokm : Forall (tok_ok (szn c)) range) by (apply Forall_firstn', Forall_skipn'; exact Htok').
     destruct (drop_range_fused c (known_of a) vr (wuw w) range s e k Hst' Hse' ltac:(lia) Hlr Hm' Htokm Hfuse)
-      as (u' & Edr & Hn' & Hl').
+      as (u' & Edr & Hn' & Hl' & _).
     assert (Hg2 : get_vec vid w2 = Some vr) by (apply get_vec_put_same).
     assert (Hu2 : wuw w2 = wuw w) by reflexivity.
     destruct (c_dg c && (k <? N.of_nat (e - s))) eqn:Ecase.
@@ -419,12 +735,145 @@ Proof.
     + rewrite wuw_put. reflexivity.
 Qed.
 
+Lemma exec_splice_f c w st a vid sb eb rk n wrong_at claimed k r :
+  cfg_wf c -> WRep c w st -> ufuse (wuw w) = Some k ->
+  sp_splice_f c st (unext (wuw w)) a vid sb eb rk n wrong_at claimed k = Some r ->
+  adm_splice c w vid sb eb n ->
+  res_matches_f c w (exec c (OSplice a vid sb eb [] FinDrop rk n wrong_at claimed) w) r.
+Proof.
+  intros Hwf HW Hfuse Hr Hadm. unfold sp_splice_f in Hr.
+  assert (Hrk : rk = RWrap \/ rk = RBox) by (destruct rk; [left|right|destruct wrong_at; discriminate]; reflexivity).
+  destruct wrong_at as [x|]; [destruct rk; discriminate|].
+  assert (Hc : claimed = n).
+  { destruct (N.eqb_spec claimed n) as [E|NE]; [exact E|]. destruct rk; discriminate. }
+  subst claimed. rewrite N.eqb_refl in Hr. cbn [negb] in Hr.
+  assert (Hr' : match get_a vid st with None => None | Some av => _ end = Some r) by (destruct Hrk as [-> | ->]; exact Hr).
+  clear Hr. rename Hr' into Hr.
+  destruct (get_a vid st) as [av|] eqn:Hg; [|discriminate].
+  destruct (wrep_get c w st vid av HW Hg) as (vv & Hgv & HV).
+  pose proof (vi_rep _ _ _ HV) as HR. pose proof (rep_len _ _ _ HR) as Hlen.
+  specialize (Hadm vv Hgv). rewrite Hlen in Hadm.
+  set (xs := a_xs av) in *. cbv zeta in Hr.
+  set (nn := N.to_nat n) in *.
+  set (ts := next_ids c (unext (wuw w)) nn) in *.
+  assert (Hlts : length ts = nn) by apply next_ids_length.
+  assert (Hn : n = N.of_nat (length ts)) by (rewrite Hlts; unfold nn; lia).
+  set (w0 := bump_by (N.of_nat nn) w).
+  assert (HW0 : WRep c w0 st) by (apply (wrep_wv c w w0 st eq_refl HW)).
+  assert (Hgv0 : get_vec vid w0 = Some vv) by exact Hgv.
+  assert (Hfuse0 : ufuse (wuw w0) = Some k) by exact Hfuse.
+  assert (Hnx0 : unext (wuw w0) = unext (wuw w) + n) by (unfold w0, bump_by, nn; cbn [wuw unext]; lia).
+  assert (Hev0 : uevents (wuw w0) = uevents (wuw w)) by reflexivity.
+  set (items := map (fun t => honest_item c t (rk_flag rk)) ts).
+  cbn [exec]. rewrite (bind_ok _ _ _ _ _ (peek_vec_ok vid w vv Hgv)).
+  rewrite (bind_ok _ _ _ _ _ (make_items_honest c rk Hrk nn 0 w)). fold ts items w0.
+  rewrite Hlen.
+  destruct (range_of_bounds usize_max (N.of_nat (length xs)) (to_sb sb) (to_sb eb)) as [[sN eN]|] eqn:Erb; [|discriminate].
+  destruct (into_range_ok _ sb eb (vv, wuw w0) sN eN Erb) as (Eir & Hse & Hel).
+  set (s := N.to_nat sN) in *. set (e := N.to_nat eN) in *.
+  assert (HsN : sN = N.of_nat s) by (unfold s; rewrite N2Nat.id; reflexivity).
+  assert (HeN : eN = N.of_nat e) by (unfold e; rewrite N2Nat.id; reflexivity).
+  assert (Hse' : (s <= e)%nat) by lia. assert (Hel' : (e <= length xs)%nat) by lia.
+  rewrite (bind_ok _ _ _ _ _ (unwinding_okw _ _ _ _ _ (on_vec_ok vid _ w0 vv _ vv (wuw w0) Hgv0 Eir))). cbn [fst snd].
+  set (w1 := put_vec vid (Some vv) (wuw w0) w0).
+  set (vr := with_len (N.of_nat s) vv).
+  pose proof (drain_new_spec c vv (wuw w0) xs s e HR Hse' Hel') as Edn. rewrite <- HsN, <- HeN in Edn.
+  rewrite (bind_ok _ _ _ _ _ (on_vec_ok vid _ w1 vv _ _ _ (get_vec_put_same vid (Some vv) (wuw w0) w0) Edn)).
+  rewrite HsN, HeN. fold vr.
+  set (w2 := put_vec vid (Some vr) (wuw w1) w1).
+  cbn [walk dcur]. unfold ret at 1. unfold bind at 1. cbn [fst snd].
+  change (put_vec vid (Some vr) (wuw w0) w1) with w2.
+  assert (Hg2 : get_vec vid w2 = Some vr) by (apply get_vec_put_same).
+  assert (Hu2 : wuw w2 = wuw w0) by reflexivity.
+  pose proof (range_alive_any c vv xs s e s e HR (le_n s) Hse' (le_n e) Hel') as HA. fold vr in HA.
+  assert (Hnl : N.of_nat s + n + N.of_nat (length xs - e) = N.of_nat (s + length ts + (length xs - e))) by lia.
+  rewrite Hnl in Hr.
+  destruct (usize_max <? N.of_nat (s + length ts + (length xs - e))) eqn:Eov; [discriminate|]. cbn [orb] in Hr.
+  destruct (match acap c (a_bk av) with Some cap => cap <? N.of_nat (s + length ts + (length xs - e)) | None => false end) eqn:Ecap; [discriminate|].
+  assert (Hroom : N.of_nat (s + length ts + (length xs - e)) <= vcap vr \/
+                  grow_ok c vr (N.of_nat (s + length ts + (length xs - e)))).
+  { destruct (acap c (a_bk av)) as [cap|] eqn:Ea.
+    - left. apply N.ltb_ge in Ecap. pose proof (vi_cap _ _ _ HV) as H. rewrite Ea in H.
+      unfold vr. cbn [with_len vcap]. lia.
+    - assert (Hnf : ~ fixed_backend (vbk vv)). { rewrite (vi_bk _ _ _ HV). eapply acap_none_not_fixed; eauto. }
+      cbv zeta in Hadm. apply N.ltb_ge in Eov.
+      assert (Hx : sN + n + (N.of_nat (length xs) - eN) = N.of_nat (s + length ts + (length xs - e))) by lia.
+      rewrite Hx in Hadm.
+      destruct Hadm as [H1|[H1|[H1|H1]]]; [left; exact H1|contradiction|lia|right; exact H1]. }
+  destruct (splice_drop_fused c vr (wuw w0) xs s e s e (known_of a) ts (rk_flag rk) k Hwf HA Hfuse0
+              (next_ids_tok_ok _ _ _) Hroom)
+    as (v' & u' & Ed & HR' & Hb' & Hn' & Hc' & He').
+  set (range := firstn (e - s) (skipn s xs)) in *.
+  set (m := if c_dg c then N.of_nat (e - s) else 0) in *.
+  assert (Efin : on_vec vid (splice_drop c (known_of a)
+                   (with_cur {| ci := N.of_nat s; ce := N.of_nat e |}
+                      {| dcur := {| ci := N.of_nat s; ce := N.of_nat e |}; dstart := N.of_nat s; dend := N.of_nat e;
+                         dorig := N.of_nat (length xs) |}) n items) w2
+                 = match splice_drop c (known_of a)
+                     {| dcur := {| ci := N.of_nat s; ce := N.of_nat e |}; dstart := N.of_nat s; dend := N.of_nat e;
+                        dorig := N.of_nat (length xs) |} (N.of_nat (length ts)) items (vr, wuw w0) with
+                   | Ok a0 (v1, u1) => Ok a0 (put_vec vid (Some v1) u1 w2)
+                   | Panic p (v1, u1) => Panic p (put_vec vid (Some v1) u1 w2)
+                   | Fault f0 => Fault f0
+                   end).
+  { unfold on_vec. rewrite Hg2, Hu2. unfold with_cur. cbn [dcur dstart dend dorig]. rewrite <- Hn. reflexivity. }
+  unfold bind at 1. rewrite Efin. unfold items. rewrite Ed.
+  assert (Hstepf : forall w' st' evs, step_okf c w0 w' st' evs 0 -> step_okf c w w' st' evs (unext (wuw w) + n - unext (wuw w))).
+  { intros w' st' evs [R Nx E]. constructor; auto; try (rewrite Nx, Hnx0; lia); try (rewrite E, Hev0; reflexivity). }
+  destruct (c_dg c && (k <? N.of_nat (e - s))) eqn:EA; cbn [orb negb andb] in *.
+  - (* A *)
+    injection Hr as <-.
+    cbn [res_matches_f panic_res s_out s_pk s_ret s_st s_evs s_nx].
+    split; [reflexivity|split; [reflexivity|split; [reflexivity|]]].
+    apply Hstepf. constructor.
+    + intros q. unfold w2, w1. rewrite !put_put_slot.
+      apply (wrep_put c w0 st vid (Some v') (Some (with_xs av (firstn s xs))) u' HW0).
+      destruct HV as [HRv Hbk Hbw Hcap Hfits]. constructor; cbn [with_xs a_bk a_xs]; auto.
+      * unfold vr in Hb'. cbn [with_len vbk] in Hb'. congruence.
+      * destruct (acap c (a_bk av)) as [cap|] eqn:Ea; [|exact I].
+        apply N.ltb_ge in Ecap. rewrite Hc'; [unfold vr; cbn [with_len vcap]; exact Hcap|].
+        unfold vr. cbn [with_len vcap]. lia.
+    + rewrite wuw_put. lia.
+    + rewrite wuw_put. rewrite He'. f_equal. f_equal. destruct a; reflexivity.
+  - destruct (k - m <? N.of_nat (length ts)) eqn:EB; cbn [orb] in *.
+    + (* B *)
+      rewrite Hn in Hr. rewrite EB in Hr. injection Hr as <-.
+      cbn [res_matches_f panic_res s_out s_pk s_ret s_st s_evs s_nx].
+      split; [reflexivity|split; [reflexivity|split; [reflexivity|]]].
+      rewrite <- Hn. apply Hstepf. constructor.
+      * intros q. unfold w2, w1. rewrite !put_put_slot.
+        apply (wrep_put c w0 st vid (Some v') (Some (with_xs av (firstn s xs))) u' HW0).
+        destruct HV as [HRv Hbk Hbw Hcap Hfits]. constructor; cbn [with_xs a_bk a_xs]; auto.
+        -- unfold vr in Hb'. cbn [with_len vbk] in Hb'. congruence.
+        -- destruct (acap c (a_bk av)) as [cap|] eqn:Ea; [|exact I].
+           apply N.ltb_ge in Ecap. rewrite Hc'; [unfold vr; cbn [with_len vcap]; exact Hcap|].
+           unfold vr. cbn [with_len vcap]. lia.
+      * rewrite wuw_put. lia.
+      * rewrite wuw_put. rewrite He'. reflexivity.
+    + (* C *)
+      rewrite Hn in Hr. rewrite EB in Hr. injection Hr as <-. unfold ret.
+      assert (Hcl : cur_len {| ci := N.of_nat s; ce := N.of_nat e |} = N.of_nat (e - s)) by (unfold cur_len; cbn [ci ce]; lia).
+      rewrite Hcl.
+      cbn [res_matches_f ok_res s_out s_pk s_ret s_st s_evs s_nx].
+      split; [reflexivity|split; [reflexivity|split; [reflexivity|]]].
+      rewrite <- Hn. apply Hstepf. constructor.
+      * intros q. unfold w2, w1. rewrite !put_put_slot.
+        apply (wrep_put c w0 st vid (Some v') (Some (with_xs av (VecSpec.sp_splice s e ts xs))) u' HW0).
+        destruct HV as [HRv Hbk Hbw Hcap Hfits]. constructor; cbn [with_xs a_bk a_xs]; auto.
+        -- unfold vr in Hb'. cbn [with_len vbk] in Hb'. congruence.
+        -- destruct (acap c (a_bk av)) as [cap|] eqn:Ea; [|exact I].
+           apply N.ltb_ge in Ecap. rewrite Hc'; [unfold vr; cbn [with_len vcap]; exact Hcap|].
+           unfold vr. cbn [with_len vcap]. lia.
+      * rewrite wuw_put. lia.
+      * rewrite wuw_put. rewrite He'. unfold nn in Hlts. rewrite Hlts. reflexivity.
+Qed.
+
 Lemma exec_fused c w st k o r :
   cfg_wf c -> WRep c w st -> ufuse (wuw w) = Some k ->
-  spec_step_f c st (unext (wuw w)) (Some k) o = Some r ->
+  spec_step_f c st (unext (wuw w)) (Some k) o = Some r -> admissible c w o ->
   res_matches_f c w (exec c o w) r.
 Proof.
-  intros Hwf HW Hfuse Hr. cbn [spec_step_f] in Hr.
+  intros Hwf HW Hfuse Hr Hadm. cbn [spec_step_f] in Hr.
   destruct o; try discriminate.
   - (* ODropVec *)
     destruct (sp_clear_f c st (unext (wuw w)) v k) as [r0|] eqn:E0; [|discriminate]. injection Hr as <-.
@@ -438,6 +887,8 @@ Proof.
   - (* OClear *) exact (exec_clear_f c w st a v k r HW Hfuse Hr).
   - (* ODrain *) destruct pat; [|discriminate]. destruct f; [|discriminate].
     exact (exec_drain_f c w st a v sb eb k r Hwf HW Hfuse Hr).
+  - (* OSplice *) destruct pat; [|discriminate]. destruct f; [|discriminate]. cbn [admissible] in Hadm.
+    exact (exec_splice_f c w st a v sb eb rk n wrong_at claimed k r Hwf HW Hfuse Hr Hadm).
 Qed.
 
 Definition armed (k : N) (w : world) : world :=
@@ -465,6 +916,18 @@ Proof.
       * injection H as <-. cbn; split; lia.
       * exact (sp_drain_nx _ _ _ _ _ _ _ _ _ H).
     + injection H as <-. cbn; split; lia.
+  - destruct pat; [|discriminate]. destruct f; [|discriminate]. unfold sp_splice_f in H.
+    destruct wrong_at; [destruct rk; discriminate|].
+    assert (H' : (if negb (claimed =? n) then None else
+                  match get_a v st with None => None | Some av => _ end) = Some r) by (destruct rk; try discriminate; exact H).
+    clear H. destruct (negb (claimed =? n)); [discriminate|].
+    destruct (get_a v st) as [av|]; [|discriminate]. cbv zeta in H'.
+    destruct (range_of_bounds usize_max (N.of_nat (length (a_xs av))) (to_sb sb) (to_sb eb)) as [[s0 e0]|]; [|discriminate].
+    repeat match type of H' with
+    | Some _ = Some _ => injection H' as <-
+    | None = Some _ => discriminate H'
+    | context [if ?x then _ else _] => destruct x eqn:?
+    end; cbn; split; lia.
 Qed.
 
 (** one script step, with or without a fuse *)
@@ -476,7 +939,8 @@ Proof.
   intros Hwf HW Hr Hadm. destruct fuse as [k|].
   2:{ exact (step_refines c w st o r Hwf HW Hr Hadm). }
   assert (HW0 : WRep c (armed k w) st) by (apply (wrep_wv c w); [reflexivity|exact HW]).
-  pose proof (exec_fused c (armed k w) st k o r Hwf HW0 eq_refl Hr) as Hx.
+  assert (Hadm0 : admissible c (armed k w) o) by exact Hadm.
+  pose proof (exec_fused c (armed k w) st k o r Hwf HW0 eq_refl Hr Hadm0) as Hx.
   destruct (spec_f_small _ _ _ _ _ _ Hr) as [Hge Hsm].
   unfold run_step. fold (armed k w).
   destruct (exec c o (armed k w)) as [[out ret] w'|p w'|f]; cbn [res_matches_f] in Hx; [| |contradiction].
@@ -547,7 +1011,12 @@ Definition exf_ops : list (option N * op) :=
     (Some 1, ODrain Erased 2 (BIncluded 0) (BExcluded 3) [] FinDrop);   (* erased drain: stops at the panicking destructor *)
     (None, OPush Erased 2 SWrap); (None, OPush Erased 2 SWrap); (None, OPush Erased 2 SWrap);
     (Some 0, ODrain Typed 2 BUnbounded (BExcluded 2) [] FinDrop);       (* typed drain: the slice drop goes on, then unwinds *)
-    (Some 7, ODrain Typed 2 BUnbounded BUnbounded [] FinDrop) ].
+    (Some 7, ODrain Typed 2 BUnbounded BUnbounded [] FinDrop);
+    (None, OPush Erased 2 SWrap); (None, OPush Erased 2 SWrap); (None, OPush Erased 2 SWrap); (None, OPush Erased 2 SWrap);
+    (Some 1, OSplice Erased 2 (BIncluded 1) (BExcluded 3) [] FinDrop RWrap 2 None 2);   (* A: the second destructor of the range panics *)
+    (None, OPush Erased 2 SWrap); (None, OPush Erased 2 SWrap); (None, OPush Erased 2 SWrap);
+    (Some 2, OSplice Typed 2 (BIncluded 1) (BExcluded 2) [] FinDrop RWrap 3 None 3);    (* B: the second call of next() panics *)
+    (Some 9, OSplice Erased 2 BUnbounded BUnbounded [] FinDrop RBox 1 None 1) ].        (* C: nothing panics *)
 Example exf_outcomes :
   map (fun r => (s_out r, s_pk r, s_evs r, map (fun o => match o with Some a => a_xs a | None => [] end) (s_st r)))
       (match spec_run_f ex_cfg [] 1 exf_ops with Some rs => rs | None => [] end)
@@ -560,7 +1029,12 @@ Example exf_outcomes :
      (0,0,[],[[]; []; []]); (0,0,[],[[]; []; [11]]); (0,0,[],[[]; []; [11;12]]); (0,0,[],[[]; []; [11;12;13]]); (0,0,[],[[]; []; [11;12;13;14]]);
      (2,8,[EDrop 11; EDrop 12],[[]; []; []]);
      (0,0,[],[[]; []; [15]]); (0,0,[],[[]; []; [15;16]]); (0,0,[],[[]; []; [15;16;17]]);
-     (2,8,[EDrop 15; EDrop 16],[[]; []; []]); (0,0,[],[[]; []; []])].
+     (2,8,[EDrop 15; EDrop 16],[[]; []; []]); (0,0,[],[[]; []; []]);
+     (0,0,[],[[]; []; [18]]); (0,0,[],[[]; []; [18;19]]); (0,0,[],[[]; []; [18;19;20]]); (0,0,[],[[]; []; [18;19;20;21]]);
+     (2,8,[EDrop 19; EDrop 20; EDrop 22; EDrop 23],[[]; []; [18]]);
+     (0,0,[],[[]; []; [18;24]]); (0,0,[],[[]; []; [18;24;25]]); (0,0,[],[[]; []; [18;24;25;26]]);
+     (2,8,[EDrop 24; ENext; ENext; EDrop 28; EDrop 29],[[]; []; [18]]);
+     (0,0,[EDrop 18; ENext],[[]; []; [30]])].
 Proof. vm_compute. reflexivity. Qed.
 Fixpoint Admissible_fb (c : cfg) (w : world) (ops : list (option N * op)) : bool :=
   match ops with
